@@ -514,7 +514,92 @@ func (g *gen) randClose() []byte {
 	return closeMsg(s[g.pick(len(s))])
 }
 
+// connFuzz: peer-controlled input dominated by malformed and out-of-phase messages (C08)
+var connFuzz bool
+
+var fuzzTokens = []string{"null", "[]", "[ ]", "{}", "{ }", `""`, "-1", "0", "1e999", "4294967296", "true", `"x"`, `[{}]`, `[[]]`, `[null]`, `{"a":1}`, `"\u0000"`, "18446744073709551616"}
+
+// structured mutation of a valid message
+func (g *gen) mutate() []byte {
+	m := append([]byte{}, g.anyValid()...)
+	if len(m) < 2 {
+		return m
+	}
+	body := string(m[1:])
+	switch g.pick(11) {
+	case 0, 1, 2: // replace the value after a random ':' by a token of another shape
+		var pos []int
+		for i, c := range body {
+			if c == ':' {
+				pos = append(pos, i)
+			}
+		}
+		if len(pos) > 0 {
+			i := pos[g.pick(len(pos))]
+			j := i + 1
+			depth := 0
+			inStr := false
+			for ; j < len(body); j++ {
+				c := body[j]
+				if inStr {
+					if c == '"' {
+						inStr = false
+					}
+					continue
+				}
+				if c == '"' {
+					inStr = true
+				} else if c == '[' || c == '{' {
+					depth++
+				} else if c == ']' || c == '}' {
+					if depth == 0 {
+						break
+					}
+					depth--
+				} else if c == ',' && depth == 0 {
+					break
+				}
+			}
+			body = body[:i+1] + fuzzTokens[g.pick(len(fuzzTokens))] + body[j:]
+		}
+	case 3: // whitespace inside brackets and braces
+		body = strings.ReplaceAll(body, "[", "[ ")
+		if g.pick(2) == 0 {
+			body = strings.ReplaceAll(body, "{", "{\n")
+		}
+	case 4: // drop one element of the first array
+		if i := strings.Index(body, "},{"); i >= 0 {
+			if j := strings.Index(body[i+2:], "}"); j >= 0 {
+				body = body[:i+1] + body[i+2+j+1:]
+			}
+		}
+	case 5: // duplicate the tail
+		if i := strings.Index(body, ",{"); i >= 0 {
+			body = body[:i] + body[i:len(body)-2] + body[i:]
+		}
+	case 6: // wrong header byte
+		m[0] = byte(g.pick(6))
+	case 7: // trailing bytes
+		body += []string{"}", "]", ",", "\x00", " {}", "garbage"}[g.pick(6)]
+	case 8: // a very long message
+		body = strings.Replace(body, "[", "["+strings.Repeat(`{"x":[]},`, 500+g.pick(3000)), 1)
+	case 9: // deep nesting
+		k := 50 + g.pick(12000)
+		body = strings.Replace(body, ":", ":"+strings.Repeat("[", k)+strings.Repeat("]", k)+",\"y\":", 1)
+	default: // bytes that are not UTF-8
+		b := []byte(body)
+		if len(b) > 0 {
+			b[g.pick(len(b))] = byte(0x80 + g.pick(0x7f))
+		}
+		body = string(b)
+	}
+	return append([]byte{m[0]}, []byte(body)...)
+}
+
 func (g *gen) garbage() []byte {
+	if connFuzz && g.pick(3) != 0 {
+		return g.mutate()
+	}
 	switch g.pick(6) {
 	case 0:
 		n := g.pick(12)
@@ -738,6 +823,9 @@ func runScenario(id int, seed int64, maxEvents int) *scenario {
 
 	// bias of this scenario: how cooperative the peer is
 	coop := 55 + g.pick(40)
+	if connFuzz {
+		coop = 20 + g.pick(45)
+	}
 	postTerm := 0
 	for n := 0; n < maxEvents && !rn.dead; n++ {
 		// the sleeping closers of the implementation fire on their own after 1 s / 500 ms: keep clear of that
@@ -810,7 +898,7 @@ func runScenario(id int, seed int64, maxEvents int) *scenario {
 				continue
 			}
 			rn.evMsg(m)
-		case k < coop+14 && open:
+		case (k < coop+14 || (connFuzz && k < coop+45)) && open:
 			rn.evMsg(g.garbage())
 		case k < coop+20 && open:
 			rn.evMsg(g.randData())
@@ -976,7 +1064,9 @@ func connstepMain(args []string) int {
 	workers := fs.Int("workers", 32, "parallel scenarios")
 	outIn := fs.String("in", "conn_in.txt", "event lines (model input)")
 	outImpl := fs.String("impl", "conn_impl.txt", "implementation observation lines")
+	fuzz := fs.Bool("fuzz", false, "malformed and out-of-phase messages dominate (C08)")
 	_ = fs.Parse(args)
+	connFuzz = *fuzz
 
 	res := make([]*scenario, *n)
 	var wg sync.WaitGroup
